@@ -891,6 +891,48 @@ impl Generator {
     }
 }
 
+#[cfg(a4lg_ffuzzy_verif)]
+impl Generator {
+    /// (Verification hook) Creates the generator which has the exact same state
+    /// as after consuming the specified number of zero bytes.
+    ///
+    /// Zero bytes never end a piece so only the input size, the rolling
+    /// window index and the FNV states of the first context differ from
+    /// those of a new generator.
+    pub fn verif_with_prefix_zeroes(size: u64) -> Self {
+        let mut generator = Generator::new();
+        generator.0.input_size = size;
+        generator.0.roll_hash = RollingHash::verif_with_prefix_zeroes(size);
+        for _ in 0..(size % 64) {
+            generator.0.bh_context[0].h_full.update_by_byte(0);
+            generator.0.bh_context[0].h_half.update_by_byte(0);
+        }
+        generator
+    }
+
+    /// (Verification hook) Compares the all internal data of two generators.
+    pub fn verif_inner_eq(&self, other: &Self) -> bool {
+        self.0 == other.0
+    }
+
+    /// (Verification hook) Returns the progress of the engine: `bhidx_start`,
+    /// `bhidx_end`, `bhidx_end_limit`, `is_last` and `blockhash_index` of the
+    /// all block hash contexts.
+    pub fn verif_probe(&self) -> (usize, usize, usize, bool, [u8; block_size::NUM_VALID]) {
+        let mut indices = [0u8; block_size::NUM_VALID];
+        for (i, ctx) in self.0.bh_context.iter().enumerate() {
+            indices[i] = ctx.blockhash_index as u8;
+        }
+        (
+            self.0.bhidx_start,
+            self.0.bhidx_end,
+            self.0.bhidx_end_limit,
+            self.0.is_last,
+            indices,
+        )
+    }
+}
+
 impl Default for Generator {
     fn default() -> Self {
         Self::new()
